@@ -43,6 +43,7 @@ import (
 // Block protocol (see /verif/lean/Driver/C07.lean).  Times are ns relative to
 // the block's base time (the fake clock at reset).
 //
+//	C07.consts   => limit scan offset nStatus status* nReasons reason* fileName maxEntrySize bufferSize   (constants read from the package)
 //	C07.reset full memSize fileEnabled enabled ivlMs nRules rule* nHosts host* nClients {id name ignore}*   => m c r
 //	C07.add id dt qname cid ip ipAnon reason isFiltered variant   => rt m c r
 //	C07.addthen <add fields> clear|shutdown|restart m f e         => rt m c r   (the op overtakes the flush goroutine of Add)
@@ -657,9 +658,62 @@ func c07TakeClients(f []string, i int) (m map[string]*Client, next int) {
 	return m, i
 }
 
+// c07Consts reads the constants the model hard-codes from the package under
+// test: the response_status names, the defaults of newSearchParams, the names
+// of the filtering reasons by number, the file names and the entry-size limit.
+func c07Consts() []string {
+	p := newSearchParams()
+	out := []string{strconv.Itoa(p.limit), strconv.Itoa(p.maxFileScanEntries), strconv.Itoa(p.offset),
+		strconv.Itoa(len(filteringStatusValues))}
+	for _, v := range filteringStatusValues {
+		out = append(out, vutil.Hex(v))
+	}
+	n := 0
+	for filtering.Reason(n).String() != "" && n < 64 {
+		n++
+	}
+	out = append(out, strconv.Itoa(n))
+	for i := 0; i < n; i++ {
+		out = append(out, vutil.Hex(filtering.Reason(i).String()))
+	}
+
+	return append(out, vutil.Hex(queryLogFileName), strconv.Itoa(maxEntrySize), strconv.Itoa(bufferSize))
+}
+
+// c07Str runs one string through the real encoder (the same HTML-escaping
+// encoder flushLogBuffer uses), cuts the raw value out of a line the way
+// quickMatch does, and reads the line back with the real decoder.
+func c07Str(v string) []string {
+	var buf bytes.Buffer
+	if err := json.NewEncoder(&buf).Encode(struct {
+		QH string
+		X  int
+	}{QH: v, X: 1}); err != nil {
+		return []string{"?", "?", "0"}
+	}
+	line := strings.TrimSuffix(buf.String(), "\n")
+	const pre = `{"QH":"`
+	const post = `","X":1}`
+	if !strings.HasPrefix(line, pre) || !strings.HasSuffix(line, post) {
+		return []string{"?", "?", "0"}
+	}
+	enc := line[len(pre) : len(line)-len(post)]
+	raw := readJSONValue(line, `"QH":"`)
+	ent := &logEntry{}
+	(&queryLog{logger: slogutil.NewDiscardLogger()}).decodeLogEntry(context.Background(), ent, line)
+
+	return []string{vutil.Hex(enc), vutil.Hex(raw), vutil.B(ent.QHost == v)}
+}
+
 func c07Run(f []string) []string {
 	op := f[0]
 	ctx := context.Background()
+	if op == "C07.consts" {
+		return c07Consts()
+	}
+	if op == "C07.str" {
+		return c07Str(vutil.Unhex(f[1]))
+	}
 	if op == "C07.reset" {
 		if time.Now().Year() > 2250 {
 			panic("fake clock of the synctest bubble is nearly exhausted (int64 ns): too many/too long blocks")
@@ -1140,6 +1194,77 @@ func (g *c07Gen) emitSearch(scan int, okind, oval, limit, offset, term, status s
 		vutil.Hex(lowered), vutil.Hex(ascii), vutil.B(err != nil), vutil.Hex(status))
 }
 
+// c07Str4Gen is a string value for the codec check: every ASCII byte incl.
+// control bytes, quotes, backslashes and the HTML characters, names of the
+// pools, and valid UTF-8 (not U+2028/9, which the encoder escapes).
+func c07Str4Gen(r *rand.Rand) string {
+	switch r.IntN(4) {
+	case 0:
+		return vutil.Pick(r, c07HostPool) + vutil.Pick(r, c07CIDPool)
+	case 1:
+		return vutil.Pick(r, []string{"пример.рф", "münchen", "日本語", "a\u00e9b", "", "\\", "\"", "\\\"", "</script>&amp;"})
+	default:
+		n := r.IntN(14)
+		b := make([]byte, n)
+		for i := range b {
+			if r.IntN(3) == 0 {
+				b[i] = "\"\\<>&\b\f\n\r\t\x00\x1f\x7f/'"[r.IntN(15)]
+			} else {
+				b[i] = byte(r.IntN(128))
+			}
+		}
+
+		return string(b)
+	}
+}
+
+// c07Garbage is a short string of arbitrary bytes: printable, control, invalid
+// UTF-8, separators of the query string.
+func c07Garbage(r *rand.Rand) string {
+	n := r.IntN(11)
+	b := make([]byte, n)
+	for i := range b {
+		switch k := r.IntN(10); {
+		case k < 4:
+			b[i] = byte(0x20 + r.IntN(0x5f))
+		case k < 6:
+			b[i] = byte(r.IntN(0x20))
+		case k < 8:
+			b[i] = byte(0x80 + r.IntN(0x80))
+		default:
+			b[i] = "\"&=%+#?/\\;-0159"[r.IntN(15)]
+		}
+	}
+
+	return string(b)
+}
+
+// garbageSearch sends a request whose parameters are a malformed stream: no
+// value may crash the handler, and what it answers is still what the model says.
+func (g *c07Gen) garbageSearch() {
+	r := g.r
+	pick := func(p int) string {
+		if r.IntN(100) < p {
+			return c07Garbage(r)
+		}
+
+		return ""
+	}
+	okind, oval := "none", "-"
+	if ot := pick(40); ot != "" {
+		if tm, err := time.Parse(time.RFC3339Nano, ot); err != nil {
+			okind, oval = "rawbad", vutil.Hex(ot)
+		} else if tm.IsZero() {
+			okind, oval = "rawzero", vutil.Hex(ot)
+		}
+	}
+	limit, offset := pick(50), pick(40)
+	if r.IntN(3) == 0 {
+		limit = strconv.Itoa(1 + r.IntN(20))
+	}
+	g.emitSearch(0, okind, oval, limit, offset, pick(70), pick(25))
+}
+
 // pageChain pages through the log with the returned cursor.
 func (g *c07Gen) pageChain() {
 	r := g.r
@@ -1234,12 +1359,20 @@ func (g *c07Gen) block() {
 		case k < 94:
 			g.flushRace()
 		default:
-			g.search(vutil.Pick(r, []string{"", "any", "any", "cursor"}))
+			if r.IntN(6) == 0 {
+				g.garbageSearch()
+			} else {
+				g.search(vutil.Pick(r, []string{"", "any", "any", "cursor"}))
+			}
 		}
 	}
 	// final battery
 	for i, n := 0, 6+r.IntN(10); i < n; i++ {
-		g.search(vutil.Pick(r, []string{"", "", "any", "any", "cursor"}))
+		if r.IntN(8) == 0 {
+			g.garbageSearch()
+		} else {
+			g.search(vutil.Pick(r, []string{"", "", "any", "any", "cursor"}))
+		}
 	}
 	g.pageChain()
 	if r.IntN(2) == 0 {
@@ -1408,7 +1541,12 @@ func (g *c07Gen) bigBlock() {
 
 func c07GenAll(r *rand.Rand, emit vutil.Emit) {
 	g := &c07Gen{r: r, emit: emit}
+	emit("C07.consts")
 	n := vutil.N(300)
+	// string level of the file format: the real encoder / raw cut / decoder
+	for i := 0; i < n/4+100; i++ {
+		emit("C07.str", vutil.Hex(c07Str4Gen(r)))
+	}
 	for i := 0; i < n; i++ {
 		g.block()
 	}
